@@ -39,6 +39,14 @@ PROPS = {
         "mc": L0_QUICK + L0_THOROUGH,
         "drivers": [drv("addsub", "debug"), drv("addsub", "release", tiers=T)],
     },
+    "C02": {
+        "mc": L0_QUICK + L0_THOROUGH,
+        "drivers": [drv("mul", "debug"), drv("mul", "release", tiers=T)],
+    },
+    "C03": {
+        "mc": L0_QUICK + L0_THOROUGH,
+        "drivers": [drv("div", "debug"), drv("div", "release", tiers=T)],
+    },
 }
 
 # which properties own the value rule of an operation (a BAD event is a violation only for an owner)
@@ -51,6 +59,8 @@ def own(pid, ops):
 
 
 own("C01", "add sub checked_add checked_sub add_sc sub_sc rsub_sc")
+own("C02", "mul checked_mul mul_sc")
+own("C03", "div rem div_rem checked_div div_floor mod_floor div_mod_floor div_ceil div_euclid rem_euclid div_rem_euclid checked_div_euclid checked_rem_euclid checked_div_rem_euclid is_multiple_of")
 own("C09", "from_bytes_le new_u32")
 own("C19", "from_biguint clone")
 own("C04", "clone")
